@@ -113,6 +113,8 @@ class SymArr:
             r.member = self.member
         if hasattr(self, "elem_range"):
             r.elem_range = self.elem_range
+        if self.items is None and getattr(self, "fold_alias", None) is not None:
+            r.fold_alias = self.fold_alias
         return r
 
     # -- mutation -----------------------------------------------------
@@ -127,6 +129,7 @@ class SymArr:
         self._elem = lambda i: vite(cond_fn(i), val_fn(i), old(i))
         self.ghost = {}
         self.prefix_of = None
+        self.fold_alias = None
 
     def set_at(self, idx, val):
         idx = idx_term(idx)
@@ -167,7 +170,11 @@ class SymArr:
             return par.fold(op)
         key = "fold" + op
         if key not in self.ghost:
-            self.ghost[key] = GhostFold(self, op)
+            g = GhostFold(self, op)
+            fa = getattr(self, "fold_alias", None)
+            if fa is not None and fa[0].items is None:
+                g.alias_to = (fa[0].fold(op), fa[1])
+            self.ghost[key] = g
         return self.ghost[key]
 
     def __repr__(self):
@@ -203,6 +210,8 @@ def vite(c, a, b):
         return a
     if isinstance(a, (Fraction,)) or isinstance(b, Fraction):
         return xite(c, xr(a), xr(b))
+    if type(a).__name__ == "SymStr" and type(b).__name__ == "SymStr":
+        return type(a)(z3.If(c, zi(a.t), zi(b.t)))
     raise Unsupported(f"ite over {type(a)} / {type(b)}")
 
 
@@ -320,6 +329,11 @@ class GhostFold:
             c.index_terms_add(k)
             cur = self.raw(k)
             prev = self.raw(k - 1)
+            al2 = getattr(self, "alias_to", None)
+            if al2 is not None and ALIAS_ON[0]:
+                km1 = z3.simplify(k - 1)
+                if c.known_true(zb(band(icmp(">=", km1, 0), icmp("<=", km1, al2[1])))):
+                    prev = al2[0].at(km1)      # the prefix below the alias limit is the parent's fold
             step = self._apply(prev, arr.at(z3.simplify(k - 1)))
             zero = self.raw(0)
             if self.intkind:
